@@ -819,3 +819,95 @@ where
         self.iter()
     }
 }
+
+/// Verification hook (cargo feature `verif`, off by default): plain-text dump of
+/// the shared packed parse forest. Nothing here is used by the parser itself.
+#[cfg(feature = "verif")]
+impl<'i, I, P, TK> Forest<'i, I, P, TK>
+where
+    I: Input + ?Sized,
+    P: Debug,
+    TK: Copy + Debug,
+{
+    /// One record per distinct tree node / parent link, `|` separated:
+    /// `roots n*` ; `T id kind start end` ; `N id prod start end parent*` ;
+    /// `E id` ; `P id node*`. Ids number nodes and parent links in first-visit order.
+    pub fn verif_dump(&self) -> String {
+        use std::collections::HashMap;
+        use std::fmt::Write;
+        struct D<'a, 'i, I: Input + ?Sized, P, TK: Copy> {
+            nodes: HashMap<*const SPPFTree<'i, I, P, TK>, usize>,
+            parents: HashMap<*const Parent<'i, I, P, TK>, usize>,
+            out: Vec<String>,
+            _p: std::marker::PhantomData<&'a ()>,
+        }
+        fn node<'i, I: Input + ?Sized, P: Debug, TK: Copy + Debug>(
+            d: &mut D<'_, 'i, I, P, TK>,
+            n: &Rc<SPPFTree<'i, I, P, TK>>,
+        ) -> usize {
+            let key = Rc::as_ptr(n);
+            if let Some(id) = d.nodes.get(&key) {
+                return *id;
+            }
+            let id = d.nodes.len();
+            d.nodes.insert(key, id);
+            match &**n {
+                SPPFTree::Term { token, data } => d.out.push(format!(
+                    "T {} {:?} {} {}",
+                    id, token.kind, data.span.start.pos, data.span.end.pos
+                )),
+                SPPFTree::NonTerm {
+                    prod,
+                    data,
+                    children,
+                } => {
+                    let ps: Vec<usize> = children.borrow().iter().map(|p| parent(d, p)).collect();
+                    let mut s = format!(
+                        "N {} {:?} {} {}",
+                        id, prod, data.span.start.pos, data.span.end.pos
+                    );
+                    for p in ps {
+                        let _ = write!(s, " {p}");
+                    }
+                    d.out.push(s);
+                }
+                SPPFTree::Empty => d.out.push(format!("E {id}")),
+            }
+            id
+        }
+        fn parent<'i, I: Input + ?Sized, P: Debug, TK: Copy + Debug>(
+            d: &mut D<'_, 'i, I, P, TK>,
+            p: &Rc<Parent<'i, I, P, TK>>,
+        ) -> usize {
+            let key = Rc::as_ptr(p);
+            if let Some(id) = d.parents.get(&key) {
+                return *id;
+            }
+            let id = d.parents.len();
+            d.parents.insert(key, id);
+            let ns: Vec<usize> = p.possibilities.borrow().iter().map(|n| node(d, n)).collect();
+            let mut s = format!("P {id}");
+            for n in ns {
+                let _ = write!(s, " {n}");
+            }
+            d.out.push(s);
+            id
+        }
+        let mut d = D {
+            nodes: HashMap::new(),
+            parents: HashMap::new(),
+            out: vec![],
+            _p: std::marker::PhantomData,
+        };
+        let roots: Vec<usize> = self.results.iter().map(|n| node(&mut d, n)).collect();
+        let mut s = String::from("roots");
+        for r in roots {
+            let _ = write!(s, " {r}");
+        }
+        for rec in d.out {
+            s.push_str(" | ");
+            s.push_str(&rec);
+        }
+        s
+    }
+}
